@@ -9,6 +9,10 @@ CLAIMED = {
    "Exhaustive enumeration of the envelope lattice (all singles, ordered pairs and triples over {0..3}^2 plus the empty envelope, every XY argument class) against an interval-arithmetic reference model, and of geometry envelopes over every structural shape S(d,w) x 4 coordinate types x suppliers, every simple 3x3 lattice polygon/path under 6 affine maps, and Union envelopes over all operand pairs; every method named in the property is compared on every case.",
    "Reference model: 60 lines of interval arithmetic in checks/c12.go; coordinates outside the enumerated alphabets (lattice, float classes) are not covered.",
    "bounded-exhaustive input enumeration of the real code against an interval-arithmetic reference model", "4/C12"),
+ "C11": ("model_checking",
+   "Exhaustive enumeration of bulk-loaded trees (every multiset of <=2 (thorough <=3) lattice boxes; 14 layout families at every size 0..40 and at fan-out boundary sizes up to 5000), of query boxes (lattice over the extent, enclosing, far, own box, edge/corner touching, degenerate) and of callback histories (continue^j then Stop / wrapped Stop / error / wrapped error for every j), each search on the real tree compared with a linear-scan reference; structural invariants via the verif hook.",
+   "Reference: linear scan + closed-interval overlap and box distance in float64 (same closed forms as the property states). Visit lists longer than 12 on trees > 40 items use 15 fixed stop positions instead of all.",
+   "bounded-exhaustive enumeration of trees x queries x callback histories on the real code against a linear-scan model", "4/C11"),
 }
 
 PENDING = {}
